@@ -324,6 +324,7 @@ func (c *Class) DeepCopyEnv(oldEnv, newEnv *GlobalEnvironment) *Class {
 		native:        c.native,
 		compiled:      c.compiled,
 		Checked:       c.Checked,
+		ivarIndices:   c.ivarIndices,
 		NamespaceBase: MakeNamespaceBase(c.docComment, c.name),
 	}
 	classConstantName := classConstantPath[len(classConstantPath)-1]
